@@ -23,7 +23,6 @@ use zeroize::Zeroizing;
 use crate::{
     crypto::sym::SymmetricKeyAlgorithm,
     errors::{bail, Error, Result},
-    parsing_reader::BufReadParsing,
     types::Seipdv1ReadMode,
     util::{fill_buffer, fill_buffer_bytes},
 };
@@ -508,7 +507,8 @@ where
                 if read == *max_message_size {
                     // If the source yields more data, the message exceeds the supported size
                     // and we error out
-                    if source.read_u8().is_ok() {
+                    // (an error of the source is an error, not its end)
+                    if !source.fill_buf()?.is_empty() {
                         return Err(io::Error::other(
                             "Input stream too long for ProtectedCheckFirst mode",
                         ));
